@@ -151,4 +151,4 @@ class WorldBase:
 
     def want(self, oracle):
         '''Only the oracles of the property being checked are evaluated.'''
-        return oracle.startswith(self.profile + '.')
+        return oracle.startswith(self.profile[:3] + '.')
